@@ -104,6 +104,12 @@ type CallersDirective struct {
 	Allowed      []string
 }
 
+// FieldsClosedDirective: the complete field list of a struct type (new state must be reviewed)
+type FieldsClosedDirective struct {
+	Prop, Type string
+	Fields     []string
+}
+
 // GlobalStateDirective: the package-level variables that may change after initialisation
 type GlobalStateDirective struct {
 	Prop    string
@@ -129,6 +135,7 @@ type EnsuresAll struct {
 type ContractFile struct {
 	MapOrders  []MapOrderDirective
 	GlobalStates []GlobalStateDirective
+	FieldsClosed []FieldsClosedDirective
 	Callers      []CallersDirective
 	Resets     []ResetDirective
 	ClauseAll  []ClauseAll
@@ -243,6 +250,22 @@ func processContractLines(cf *ContractFile, lines []string, lnos []int) error {
 				}
 			}
 			cf.Callers = append(cf.Callers, d)
+			cur = nil
+			continue
+		case strings.HasPrefix(t, "fieldsclosed "):
+			// fieldsclosed Cxx Type | f1, f2, ...
+			parts := strings.SplitN(strings.TrimPrefix(t, "fieldsclosed "), "|", 2)
+			hd := strings.Fields(parts[0])
+			if len(parts) != 2 || len(hd) != 2 {
+				return fmt.Errorf("line %d: fieldsclosed Cxx Type | fields", no)
+			}
+			d := FieldsClosedDirective{Prop: hd[0], Type: hd[1]}
+			for _, f := range strings.Split(parts[1], ",") {
+				if f = strings.TrimSpace(f); f != "" {
+					d.Fields = append(d.Fields, f)
+				}
+			}
+			cf.FieldsClosed = append(cf.FieldsClosed, d)
 			cur = nil
 			continue
 		case strings.HasPrefix(t, "globalstate "):
